@@ -269,8 +269,26 @@ func gen(g *GenCtx, profile string) {
 		for i := 0; i < n; i++ {
 			c.addrOf = append(c.addrOf, i)
 		}
-		g.Op("new %d %d", n, Pick(g.R, []int{2, 3, 5, 50}))
+		// a few cases (`new … t`): a ClientAck is delivered a second time right after the handshakes,
+		// the handshake timers fire while that second handshake is pending, and the clients were
+		// dialled with an absolute handshake deadline that passes during the case
+		timers := ci < 2 || (g.Thorough() && g.R.Chance(1, 40))
+		if timers {
+			g.Op("new %d %d t", n, Pick(g.R, []int{2, 3, 5, 50}))
+		} else {
+			g.Op("new %d %d", n, Pick(g.R, []int{2, 3, 5, 50}))
+		}
+		if timers {
+			for i := 0; i < n; i++ {
+				if i == 0 || g.R.Chance(1, 2) {
+					c.op("hsdup %d", i)
+				}
+			}
+		}
 		for s := 0; s < steps; s++ {
+			if timers && s == 4 {
+				c.op("hswait")
+			}
 			c.step()
 		}
 		// final drain and probes: everything the property speaks about becomes visible
@@ -291,7 +309,7 @@ func run(in *bufio.Scanner, out *bufio.Writer) {
 		f := strings.Fields(in.Text())
 		res := "bad-op"
 		switch {
-		case len(f) == 3 && f[0] == "new":
+		case (len(f) == 3 || len(f) == 4 && f[3] == "t") && f[0] == "new":
 			n, e1 := strconv.Atoi(f[1])
 			capacity, e2 := strconv.Atoi(f[2])
 			if e1 != nil || e2 != nil || n < 1 || n > 8 || capacity < 1 {
@@ -299,7 +317,7 @@ func run(in *bufio.Scanner, out *bufio.Writer) {
 			}
 			w.Close()
 			var err error
-			w, err = tnet.NewSessionWorld(n, capacity)
+			w, err = tnet.NewSessionWorld(n, capacity, len(f) == 4)
 			if err != nil {
 				res = "setup-failed"
 			} else {
